@@ -70,6 +70,19 @@ def try_suggestion(run, state, sug, name, where):
                       key='C14:%s:apply-fails:%s' % (mname, type(e).__name__))
         return 'fail'
     run.stat('outcome:%s:ok' % mname)
+    # "succeeds": the state the step leaves behind is a proof state, i.e. it passes the full check (the check made while
+    # editing skips lines that already carry a statement)
+    try:
+        copy.copy(cp).check_proof()
+    except RecursionError:
+        raise
+    except Exception as e:
+        if 'Theorem %s not found' % name.split('.', 1)[-1] not in repr(e):
+            run.violation('property', 'suggestion of %s applies, but the resulting state does not check (%s) at %s of %s' % (mname, type(e).__name__, where, name),
+                          dict(theorem=name, where=where, suggestion={k: sstr(v) for k, v in sug.items() if k != 'display'}, parameters={k: sstr(v) for k, v in step.items()},
+                               error=repr(e)[:300], proof_before=export_lines(state), proof_after=export_lines(cp)),
+                          key='C14:%s:result-does-not-check' % mname)
+            return 'fail'
     after_gaps = gap_props(cp)
     if goal_item.rule == 'sorry' and goal_item.th is not None:
         base = multiset_minus(before_gaps, [goal_item.th.prop])
@@ -262,6 +275,40 @@ def clash_states(run, r):
     return dict(states=n_states, suggestions_applied=n_sug)
 
 
+def nested_split_states(run, r):
+    """States reached by splitting the conclusion once or twice (so that later lines depend on the open goal only through
+    other lines) with existential / universal / conjunctive assumptions available to select."""
+    from kernel.type import TVar, TFun, BoolType
+    texts = ["(?x::'a. Q x) --> (A & B) & C", "(?x::'a. Q x) --> A & (B & C)", "(?x::'a. Q x) --> (?y::'a. R y) --> (A & B) & (C & A)",
+             "(?x::'a. Q x) --> ((A & B) & C) & A", "(!x::'a. Q x) --> (?y::'a. R y) --> (A & B) & C", "A & B --> (?x::'a. Q x) --> (B & A) & C",
+             "(?x::'a. ?y::'a. S x y) --> (A & B) & C", "(?x::'a. Q x) --> (A --> B & C) & A"]
+    n_states = n_sug = 0
+    for text in texts:
+        try:
+            A_ = TVar('a')
+            context.set_context('logic', vars={'A': BoolType, 'B': BoolType, 'C': BoolType, 'Q': TFun(A_, BoolType), 'R': TFun(A_, BoolType), 'S': TFun(A_, A_, BoolType)})
+            state = server.parse_init_state(parser.parse_term(text))
+        except RecursionError:
+            raise
+        except Exception as e:
+            run.stat('split_state_exc:' + type(e).__name__)
+            continue
+        for depth in range(3):
+            n_sug += explore_state(run, state, 'generated[conclusion split %d times]' % depth, 'goal %s' % text, r, 20)
+            n_states += 1
+            gaps = [pos for pos, it in all_items(state.prf) if it.rule == 'sorry' and it.th is not None and it.th.prop.is_conj()]
+            if not gaps:
+                break
+            try:
+                method.apply_method(state, {'method_name': 'apply_backward_step', 'goal_id': '.'.join(map(str, gaps[0])), 'theorem': 'conjI'})
+            except RecursionError:
+                raise
+            except Exception as e:
+                run.stat('split_step_exc:' + type(e).__name__)
+                break
+    return dict(states=n_states, suggestions_applied=n_sug)
+
+
 def Const_false():
     from kernel.term import false
     return false
@@ -312,6 +359,7 @@ def run_check(tier, seed):
             n_states += 1
     run.cov['search'] = dict(states=n_states, suggestions_applied=n_sug, theories=thys)
     run.cov['search_binder_clash_states'] = clash_states(run, r)
+    run.cov['search_nested_split_states'] = nested_split_states(run, r)
     run.cov['search_attribute_states'] = attribute_states(run, r, ['logic', 'nat'] if tier == 'quick' else ['logic', 'set', 'function', 'nat', 'int', 'list', 'real'],
                                                           30 if tier == 'quick' else 400)
     if first:
